@@ -1872,7 +1872,9 @@ EGLPNUM_TYPENAME_QSLIB_INTERFACE int EGLPNUM_TYPENAME_QSwrite_basis (
 
 CLEANUP:
 
-	EGLPNUM_TYPENAME_ILLlp_basis_free (basis);
+	/* release the private copy only: with B == NULL `basis` is the problem's own
+	 * basis, which must survive the call */
+	EGLPNUM_TYPENAME_ILLlp_basis_free (&iB);
 	EG_RETURN (rval);
 }
 
